@@ -192,8 +192,11 @@ func (w *c10World) justified(scope int, users, passwords []string) bool {
 type c10Session struct {
 	// Eligible: the START is a supported method in its protocol version (ASCII login with
 	// minor version 0, PAP login with minor version 1). Anything else must never PASS.
-	Eligible   bool
-	Aborted    bool // a CONTINUE with the abort flag was sent
+	Eligible bool
+	Aborted  bool // a CONTINUE with the abort flag was sent
+	// OutOfPlace: the password reached the server in a packet that is out of place for the
+	// exchange; such a session must never PASS.
+	OutOfPlace bool
 	Flow       string
 	Pkts       []pktPlan
 	Users      []string // every user name the packets carry
@@ -242,7 +245,26 @@ func c10Flow(r *gen.R, w *c10World, scope int) c10Session {
 		}
 	}
 	s := c10Session{User: user, Password: pw, PwRel: pwRel, Users: []string{user}, Passwords: []string{pw}}
-	switch r.Pick(0, 1, 2, 3, 4, 5, 6, 7, 7, 7, 8, 9, 10, 11) {
+	switch r.Pick(0, 1, 2, 3, 4, 5, 6, 7, 7, 7, 8, 9, 10, 11, 12, 13, 14) {
+	case 12:
+		// at the password prompt the client sends a START (PAP- or ASCII-shaped) whose data
+		// field holds the password, instead of a CONTINUE
+		s.Flow, s.Eligible, s.OutOfPlace = "start-at-password-prompt", true, true
+		rc := asciiLogin(user, r.Bool(), pw, 0)
+		last := len(rc.Pkts) - 1
+		shape := r.Pick(1, 2)
+		rc.Pkts[last] = pktPlan{Type: 1, Minor: r.Intn(2), Body: bAuthenStart(1, 1, shape, 1, r.PickS(user, "ghost", ""), "p", "r", pw)}
+		s.Pkts = rc.Pkts
+	case 13:
+		// abort, then the right password in a further CONTINUE of the same session
+		s.Flow, s.Eligible, s.OutOfPlace = "password-after-abort", true, true
+		rc := asciiLogin(user, true, pw, 0)
+		rc.Pkts = []pktPlan{rc.Pkts[0], {Type: 1, Body: bAuthenContinue(1, "", "")}, {Type: 1, Body: bAuthenContinue(0, pw, "")}}
+		s.Pkts = rc.Pkts
+	case 14:
+		// a PAP attempt for an unknown user fails, then a CONTINUE with a real password follows
+		s.Flow, s.Eligible, s.OutOfPlace = "continue-after-failed-pap", true, true
+		s.Pkts = []pktPlan{{Type: 1, Minor: 1, Body: bAuthenStart(1, 1, 2, 1, "ghost-"+r.Alnum(3), "p", "r", "x")}, {Type: 1, Body: bAuthenContinue(0, pw, "")}}
 	case 0, 1:
 		rc := asciiLogin(user, true, pw, 0)
 		s.Flow, s.Pkts, s.WellFormed, s.Eligible = "ascii/user-in-start", rc.Pkts, true, true
@@ -406,6 +428,8 @@ func runC10(b *mon.B) {
 				}
 				if passed[si] && !s.Eligible {
 					b.Violate(caseNo, "C10/pass-for-unsupported-method-or-version", fmt.Sprintf("session [%s] was answered PASS; only ASCII logins (minor version 0) and PAP logins (minor version 1) may pass", s.Flow), wit())
+				} else if passed[si] && s.OutOfPlace {
+					b.Violate(caseNo, "C10/pass-for-out-of-place-packet/"+s.Flow, fmt.Sprintf("session [%s] was answered PASS although the password arrived in a packet that is out of place for the exchange", s.Flow), wit())
 				} else if passed[si] && s.Aborted {
 					b.Violate(caseNo, "C10/pass-after-abort", fmt.Sprintf("session [%s] sent the abort flag and was still answered PASS", s.Flow), wit())
 				}
